@@ -417,7 +417,7 @@ Definition cons_op (tn:N) (o:op) : Prop :=
   match o with OpAddCons t _ | OpDropCons t _ _ => t = tn | _ => False end.
 
 Definition fk_op (tn:N) (o:op) : Prop :=
-  match o with OpAddFk t _ | OpDropFk t _ => t = tn | _ => False end.
+  match o with OpAddFk t _ | OpDropFk t _ _ => t = tn | _ => False end.
 
 Lemma obj_added_In tn s c k o : In o (obj_added tn s c k) -> o = OpAddCons tn k.
 Proof. destruct k; simpl; [destruct (negb s); simpl; [tauto|]; destruct c; simpl|]; intuition. Qed.
@@ -523,21 +523,63 @@ Proof. unfold cons_fix. destruct (Bool.eqb (is_ix ck) (is_ix mk)) eqn:E1; simpl.
   - rewrite eqb_reflx, sig_equal_refl. auto. Qed.
 
 (* ================================================================ foreign keys: one pass fixes them *)
-Lemma fk_sig_eqb_spec a b : fk_sig_eqb a b = true <-> (f_cols a = f_cols b /\ f_rtable a = f_rtable b /\ f_rcols a = f_rcols b).
-Proof. unfold fk_sig_eqb. rewrite !andb_true_iff, !list_eqbN_eq, N.eqb_eq. tauto. Qed.
+Definition fk_sig (f:fk) :=
+  (f_cols f, f_rtable f, f_rcols f, sig_action (o_onupdate (f_opts f)), sig_action (o_ondelete (f_opts f)), sig_defer (f_opts f)).
+Lemma opt_list_eqb_eq (a b:option (list N)) : opt_eqb (list_eqb N.eqb) a b = true <-> a = b.
+Proof. destruct a, b; simpl; try (split; congruence). rewrite list_eqbN_eq. split; congruence. Qed.
+Lemma defer3_eqb_eq a b : defer3_eqb a b = true <-> a = b.
+Proof. destruct a, b; simpl; split; congruence. Qed.
+Lemma fk_sig_eqb_spec a b : fk_sig_eqb a b = true <-> fk_sig a = fk_sig b.
+Proof. unfold fk_sig_eqb, fk_sig. rewrite !andb_true_iff, !list_eqbN_eq, N.eqb_eq, !opt_list_eqb_eq, defer3_eqb_eq. split.
+  - intros [[[[[-> ->] ->] ->] ->] ->]. reflexivity.
+  - intros H. inversion H. tauto. Qed.
 Lemma fk_sig_eqb_refl a : fk_sig_eqb a a = true.
 Proof. apply fk_sig_eqb_spec. auto. Qed.
 Lemma fk_sig_eqb_sym a b : fk_sig_eqb a b = true -> fk_sig_eqb b a = true.
-Proof. rewrite !fk_sig_eqb_spec. intuition. Qed.
+Proof. rewrite !fk_sig_eqb_spec. auto. Qed.
+Lemma fk_sig_eqb_ext a a' b b' : fk_sig a = fk_sig a' -> fk_sig b = fk_sig b' -> fk_sig_eqb a b = fk_sig_eqb a' b'.
+Proof. intros Ha Hb. destruct (fk_sig_eqb a b) eqn:E; symmetry.
+  - apply fk_sig_eqb_spec. apply fk_sig_eqb_spec in E. congruence.
+  - destruct (fk_sig_eqb a' b') eqn:E'; auto. apply fk_sig_eqb_spec in E'. assert (fk_sig_eqb a b = true) by (apply fk_sig_eqb_spec; congruence). congruence. Qed.
 
+(* reflection upper-cases the option keywords and drops NO ACTION; the signature lower-cases them and maps NO ACTION to None *)
+Lemma lower_upper_char x : lower_char (upper_char x) = lower_char x.
+Proof. unfold lower_char, upper_char.
+  destruct (N.leb_spec 97 x); destruct (N.leb_spec x 122); simpl;
+    repeat match goal with |- context [N.leb ?a ?b] => destruct (N.leb_spec a b) end; simpl; lia. Qed.
+Lemma lower_upper s : lower (upper s) = lower s.
+Proof. unfold lower, upper. rewrite map_map. apply map_ext. apply lower_upper_char. Qed.
+Lemma upper_nil s : upper s = [] -> s = [].
+Proof. destruct s; simpl; congruence. Qed.
+Lemma sig_action_reflect a : sig_action (reflect_action a) = sig_action a.
+Proof. destruct a as [s|]; simpl; auto. destruct (list_eqb N.eqb (lower s) s_no_action) eqn:E.
+  - destruct s; simpl; auto; try (simpl in E; rewrite E; auto).
+  - simpl. destruct s as [|x r]; auto. change (upper (x :: r)) with (upper_char x :: upper r). cbv iota.
+    change (upper_char x :: upper r) with (upper (x :: r)). rewrite lower_upper, E. auto. Qed.
+Lemma sig_defer_reflect o : sig_defer (reflect_fkopts o) = sig_defer o.
+Proof. unfold sig_defer. simpl. destruct (o_initially o) as [s|]; simpl; auto. rewrite lower_upper. auto. Qed.
+Lemma fk_sig_reflect f : fk_sig (reflect_fk f) = fk_sig f.
+Proof. unfold fk_sig. simpl. rewrite !sig_action_reflect, sig_defer_reflect. auto. Qed.
+Lemma reflect_fk_name f : f_name (reflect_fk f) = f_name f. Proof. reflexivity. Qed.
+
+Lemma existsb_sig_reflect_l f l : existsb (fk_sig_eqb (reflect_fk f)) l = existsb (fk_sig_eqb f) l.
+Proof. induction l as [|a l IH]; simpl; auto. rewrite IH. f_equal. apply fk_sig_eqb_ext; auto. apply fk_sig_reflect. Qed.
+Lemma existsb_sig_reflect_r f l : existsb (fk_sig_eqb f) (map reflect_fk l) = existsb (fk_sig_eqb f) l.
+Proof. induction l as [|a l IH]; simpl; auto. rewrite IH. f_equal. apply fk_sig_eqb_ext; auto. apply fk_sig_reflect. Qed.
+Lemma cfk_reflect tn c m : compare_foreign_keys tn (Some (reflect_table c)) (Some m) = compare_foreign_keys tn (Some c) (Some m).
+Proof. unfold compare_foreign_keys. cbn [reflect_table t_fks]. rewrite flat_map_map. f_equal.
+  - apply flat_map_ext. intros a. rewrite existsb_sig_reflect_l. reflexivity.
+  - apply flat_map_ext. intros a. rewrite existsb_sig_reflect_r. reflexivity. Qed.
+
+Definition drop_of (tn:N) (f:fk) : op := OpDropFk tn (f_name f) (f_named f).
 Lemma drops_as_map tn (p:fk->bool) l :
-  flat_map (fun cf => if p cf then [] else [OpDropFk tn (f_name cf)]) l = map (OpDropFk tn) (map f_name (filter (fun f => negb (p f)) l)).
-Proof. induction l as [|a l IH]; simpl; auto. destruct (p a); simpl; congruence. Qed.
+  flat_map (fun cf => if p cf then [] else [OpDropFk tn (f_name cf) (f_named cf)]) l = map (drop_of tn) (filter (fun f => negb (p f)) l).
+Proof. induction l as [|a l IH]; simpl; auto. destruct (p a); simpl; auto. rewrite IH. reflexivity. Qed.
 Lemma adds_as_map tn (q:fk->bool) l :
   flat_map (fun mf => if q mf then [] else [OpAddFk tn mf]) l = map (OpAddFk tn) (filter (fun f => negb (q f)) l).
 Proof. induction l as [|a l IH]; simpl; auto. destruct (q a); simpl; congruence. Qed.
-Lemma run_drops tn names S f : In f (run apply_fop (map (OpDropFk tn) names) S) <-> In f S /\ ~ In (f_name f) names.
-Proof. revert S; induction names as [|n names IH]; intros S; simpl. { unfold run; simpl. tauto. }
+Lemma run_drops tn (ds:list fk) S f : In f (run apply_fop (map (drop_of tn) ds) S) <-> In f S /\ ~ In (f_name f) (map f_name ds).
+Proof. revert S; induction ds as [|d ds IH]; intros S; simpl. { unfold run; simpl. tauto. }
   unfold run in *. simpl. rewrite IH. unfold kremove. rewrite filter_In, negb_true_iff, N.eqb_neq. intuition. Qed.
 Lemma run_adds tn L S : run apply_fop (map (OpAddFk tn) L) S = S ++ L.
 Proof. revert S; induction L as [|a L IH]; intros S; simpl. { unfold run; simpl. rewrite app_nil_r; auto. }
@@ -547,7 +589,7 @@ Lemma fks_after tn c m : NoDup (keys f_name (t_fks c)) ->
   fks_ok (run apply_fop (compare_foreign_keys tn (Some c) (Some m)) (t_fks c)) (t_fks m).
 Proof. intros Hnd. unfold compare_foreign_keys. rewrite drops_as_map, adds_as_map, run_app, run_adds.
   set (fc := t_fks c) in *. set (fm := t_fks m).
-  assert (Hin: forall f, In f (run apply_fop (map (OpDropFk tn) (map f_name (filter (fun f => negb (existsb (fk_sig_eqb f) fm)) fc))) fc) <->
+  assert (Hin: forall f, In f (run apply_fop (map (drop_of tn) (filter (fun f => negb (existsb (fk_sig_eqb f) fm)) fc)) fc) <->
                          In f fc /\ existsb (fk_sig_eqb f) fm = true).
   { intros f. rewrite run_drops. split.
     - intros [Hf Hn]. split; auto. destruct (existsb (fk_sig_eqb f) fm) eqn:E; auto. exfalso. apply Hn.
@@ -567,6 +609,10 @@ Proof. intros Hnd. unfold compare_foreign_keys. rewrite drops_as_map, adds_as_ma
 Qed.
 Lemma fks_ok_refl fs : fks_ok fs fs.
 Proof. split; intros f Hf; apply existsb_exists; exists f; split; auto; apply fk_sig_eqb_refl. Qed.
+Lemma fks_ok_reflect fc fm : fks_ok fc fm -> fks_ok (map reflect_fk fc) fm.
+Proof. intros [H1 H2]. split.
+  - intros cf Hcf. apply in_map_iff in Hcf. destruct Hcf as [c0 [<- Hc0]]. rewrite existsb_sig_reflect_l. auto.
+  - intros mf Hmf. rewrite existsb_sig_reflect_r. auto. Qed.
 
 (* table-level well-formedness as used by the proofs *)
 Definition nd_table (t:table) : Prop := NoDup (keys c_name (t_cols t)) /\ NoDup (keys k_name (t_cons t)).
@@ -614,11 +660,11 @@ Proof. intros [Hcc Hck] [Hmc Hmk] Hok Hfk.
     destruct (kfind k_name n (t_cons c)) as [ck|]; eexists; split; eauto.
     + apply cons_fix_ok.
     + rewrite eqb_reflx, sig_equal_refl. auto.
-  - cbn [reflect_table t_fks]. rewrite fks_run_top. unfold existing_table. fold pre ciu cfk post. rewrite !run_app.
+  - cbn [reflect_table t_fks]. apply fks_ok_reflect. rewrite fks_run_top. unfold existing_table. fold pre ciu cfk post. rewrite !run_app.
     rewrite (run_id apply_fop pre). 2:{ intros o Ho. eapply col_op_fop; eauto. }
     rewrite (run_id apply_fop ciu). 2:{ intros o Ho. eapply cons_op_fop; eauto. }
     rewrite (run_id apply_fop post). 2:{ intros o Ho. eapply col_op_fop; eauto. }
-    unfold cfk. change (t_fks c) with (t_fks (reflect_table c)). apply fks_after. auto.
+    unfold cfk. rewrite cfk_reflect. apply fks_after. auto.
 Qed.
 
 Lemma cols_ok_refl g tn cs : NoDup (keys c_name cs) -> (forall c, In c cs -> dok_col c) -> cols_ok g tn (map reflect_col cs) cs.
@@ -629,7 +675,7 @@ Proof. intros H. split.
   - intros mk Hin. exists mk. rewrite kfind_nodup; auto. rewrite eqb_reflx, sig_equal_refl. auto.
   - intros x Hin. apply in_map; auto. Qed.
 Lemma existing_quiet g m : nd_table m -> dok_table m -> existing_table g (reflect_table m) m = [].
-Proof. intros [H1 H2] Hok. apply existing_table_nil; [apply cols_ok_refl|apply cons_ok_refl|apply fks_ok_refl]; auto. Qed.
+Proof. intros [H1 H2] Hok. apply existing_table_nil; [apply cols_ok_refl|apply cons_ok_refl|apply fks_ok_reflect, fks_ok_refl]; auto. Qed.
 
 (* ================================================================ a created table needs nothing more *)
 Lemma created_after m n : NoDup (keys k_name (t_cons m)) ->
@@ -652,7 +698,7 @@ Proof. intros [Hc Hk] Hok. apply existing_table_nil.
   - cbn [reflect_table t_cons]. rewrite cons_run_top. cbn [create_table_of t_cons]. apply cons_ok_of_sel; auto. intros n.
     rewrite created_after; auto. destruct (kfind k_name n (t_cons m)) as [mk|]; auto.
     exists mk. rewrite eqb_reflx, sig_equal_refl. auto.
-  - cbn [reflect_table t_fks]. rewrite fks_run_top. cbn [create_table_of t_fks].
+  - cbn [reflect_table t_fks]. apply fks_ok_reflect. rewrite fks_run_top. cbn [create_table_of t_fks].
     rewrite (run_id apply_fop). 2:{ intros o Ho. eapply cons_op_fop, ciu_ops; eauto. }
     apply fks_ok_refl. Qed.
 
